@@ -37,7 +37,7 @@ SCRIPTS = {
           ("run-step", st({"points": {"lk": [[0.0, 2.0], [8.0, 3.0]]}})), ("flat-session-results", None), ("stop-instance", None)],
     "C": [("start", None), ("begin-session", bs({"runspecs": {"dt": 0.5}}, ("alt",))), ("run-step", None), ("run-steps", {"numberSteps": 3, "settings": st({"constants": {"k": 0.25}}, "alt")["settings"]}),
           ("session-results", None), ("run-step", None), ("end-session", None)],
-    "D": [("start", None), ("begin-session", bs(None, ("base", "alt"))), ("run-step", None), ("advance", 10), ("keep-alive", None),
+    "D": [("start", None), ("begin-session", bs(None, ("base", "alt"))), ("start-bystander", 5), ("advance", 10), ("keep-alive", None),
           ("run-step", st({"constants": {"k": 7.0}})), ("session-results", None)],
     "E": [("start", None), ("begin-session", bs({"constants": {"k": 1.5}, "points": {"lk": [[0.0, 1.0], [8.0, 1.0]]}})), ("stream-steps", None),
           ("session-results", None), ("begin-session", bs({"constants": {"k": 2.5}})), ("run-step", None), ("stop-instance", None)],
@@ -63,6 +63,11 @@ def execute(order, names, n):
                 ids[nm] = b.get("instance_uuid")
                 b = dict(b, instance_uuid="<id>")
                 out[nm].append((r.status_code, b))
+                continue
+            if kind == "start-bystander":
+                # another, short-lived instance is started (its timeout must not become anybody else's)
+                r = client.post("/start-instance", json={"timeout": {"weeks": 0, "days": 0, "hours": 0, "minutes": 0, "seconds": payload, "milliseconds": 0, "microseconds": 0}})
+                out[nm].append((r.status_code, "bystander"))
                 continue
             if kind == "advance":
                 clock.advance(seconds=payload)
@@ -102,10 +107,16 @@ def _work(arg):
     names, n, orders = arg
     solo = {nm: execute([nm] * n, [nm], n)[nm] for nm in names}
     # determinism: a solo replay twice gives the same responses
+    viol = []
     again = execute([names[0]] * n, [names[0]], n)[names[0]]
     if again != solo[names[0]]:
-        return [("HARNESS", "solo replay of %s not deterministic" % names[0], None)], 0
-    viol = []
+        # the same script on two *fresh servers* of one process answers differently: an instance sees what an instance of an earlier
+        # server left behind in process-wide state of the library - it does not behave as if it were the only one
+        k = next(i for i, (x, y) in enumerate(zip(again, solo[names[0]])) if x != y)
+        viol.append(("cross-talk/process-wide-state/%s:%s" % (names[0], SCRIPTS[names[0]][k][0]), {"names": list(names), "n": n, "order": [names[0]] * n, "repeat_solo": True},
+                     "script %s replayed alone on a second fresh server returns %r at request #%d, on the first fresh server %r" % (
+                         names[0], str(again[k])[:250], k, str(solo[names[0]][k])[:250])))
+        return viol, 1
     distinct = set()
     for order in orders:
         got = execute(order, names, n)
@@ -138,9 +149,6 @@ def run(ctx):
     for (names, nn, part), (viol, cnt) in zip(jobs, res):
         total += cnt
         for sig, case, detail in viol:
-            if sig == "HARNESS":
-                print("HARNESS-ERROR: " + case)
-                raise SystemExit(2)
             ctx.violation("C16/" + sig, case, detail)
     ctx.finish({
         "states": total, "transitions": total * 2 * n, "traces_validated_against_impl": total,
